@@ -11,7 +11,7 @@ with tempfile.TemporaryDirectory() as d:
     env = dict(os.environ, PYTHONPATH=os.path.join(repo, 'src'), OMP_NUM_THREADS='1', OPENBLAS_NUM_THREADS='1', MKL_NUM_THREADS='1')  # one BLAS thread per xdist worker: 16x16 threads thrash
     for k in ('NUTILS_VERIF', 'NUTILS_MATRIX', 'VERIF_EXTRA_PYTHONPATH'):
         env.pop(k, None)
-    p = subprocess.run((['nice', '-n', '-15'] if os.geteuid() == 0 else []) + ['/venv/bin/python', '-m', 'pytest', '-q', '-p', 'no:cacheprovider', '--timeout=900', '--continue-on-collection-errors',
+    p = subprocess.run((['nice', '-n', os.environ.get('SUITE_NICE', '-15')] if os.geteuid() == 0 else []) + ['/venv/bin/python', '-m', 'pytest', '-q', '-p', 'no:cacheprovider', '--timeout=900', '--continue-on-collection-errors',
                         '-n', os.environ.get('SUITE_PROCS', '16'), '--junitxml=' + xml] + extra, cwd=repo, env=env, capture_output=True, text=True)
     print(p.stdout.strip().splitlines()[-1] if p.stdout.strip() else p.stderr[-500:])
     passed = set()
